@@ -301,6 +301,7 @@ class World:
         self.fs = SimFS(self.clock, self.sched, atime_policy=k.get("atime", "relatime"),
                         listing=k.get("listing", "sorted"), rng=random.Random(mix(record["seed"], "fs")),
                         buffer_size=k.get("bufsize", 8192))
+        self.fs.fd_limit = k.get("fd_limit")
         self.store = Store()
         for r, size in sorted(k["res_sizes"].items()):
             self.store.put(r, size)
